@@ -164,7 +164,7 @@ def main():
         per = {}
         chosen = []
         for m in ms:
-            if per.get(m[2], 0) >= 4:
+            if per.get(m[2], 0) >= int(os.environ.get('MUT_PER_FUNCTION', '4')):
                 continue
             per[m[2]] = per.get(m[2], 0) + 1
             chosen.append(m)
